@@ -16,6 +16,7 @@ import (
 	"os/exec"
 	"path/filepath"
 	"regexp"
+	"runtime/debug"
 	"strconv"
 	"strings"
 	"syscall"
@@ -23,19 +24,43 @@ import (
 	"time"
 )
 
-func w13ChildArgs(test string) []string {
+// w13ChildArgs: the arguments of this process with -test.run narrowed to one test; skip > 0 continues a
+// run whose child died after "skip" cases (remaining budget, fresh seed).
+func w13ChildArgs(test string, skip int) []string {
 	var out []string
 	args := os.Args[1:]
+	checks, seed := -1, uint64(0)
 	for i := 0; i < len(args); i++ {
 		a := args[i]
-		if a == "-test.run" || a == "--test.run" {
-			i++
-			continue
+		name, val, hasVal := a, "", false
+		if j := strings.Index(a, "="); j >= 0 {
+			name, val, hasVal = a[:j], a[j+1:], true
 		}
-		if strings.HasPrefix(a, "-test.run=") || strings.HasPrefix(a, "--test.run=") {
+		name = strings.TrimPrefix(name, "-")
+		name = "-" + strings.TrimPrefix(name, "-")
+		switch name {
+		case "-test.run", "-rapid.checks", "-rapid.seed":
+			if !hasVal && i+1 < len(args) {
+				i++
+				val = args[i]
+			}
+			if name == "-rapid.checks" {
+				checks, _ = strconv.Atoi(val)
+			} else if name == "-rapid.seed" {
+				seed, _ = strconv.ParseUint(val, 10, 64)
+			}
 			continue
 		}
 		out = append(out, a)
+	}
+	if checks >= 0 {
+		if checks -= skip; checks < 1 {
+			checks = 1
+		}
+		out = append(out, fmt.Sprintf("-rapid.checks=%d", checks))
+	}
+	if seed != 0 {
+		out = append(out, fmt.Sprintf("-rapid.seed=%d", seed+uint64(skip)))
 	}
 	return append(out, "-test.run=^"+test+"$")
 }
@@ -177,8 +202,30 @@ func w13Supervise(t *testing.T, test string) bool {
 	if os.Getenv("VERIF_C13_CHILD") != "" || os.Getenv("VERIF_C13_NOFORK") != "" {
 		return false
 	}
+	skip, unattributed := 0, 0
+	for {
+		again, started := w13SuperviseOnce(t, test, skip, &unattributed)
+		if !again {
+			break
+		}
+		skip += started
+	}
+	if unattributed > 0 {
+		// a goroutine of the server died and no recent case reproduces it: never a verdict
+		fmt.Printf("VERIF-INCONCLUSIVE C13 %d death(s) of a server goroutine could not be attributed to a case (reports in $VERIF_FAILDIR/%s.unattributed-*.json, printed above)\n", unattributed, test)
+		vFlush()
+		os.Exit(3)
+	}
+	return true
+}
+
+// w13SuperviseOnce runs one child. again = the child died of something that could not be attributed and
+// the rest of the budget should be run by a new child; started = cases the dead child had started.
+func w13SuperviseOnce(t *testing.T, test string, skip int, unattributed *int) (again bool, started int) {
 	statsPath := os.Getenv("VERIF_STATS")
-	extra := map[string]string{"VERIF_C13_CHILD": "1"}
+	// MALLOC_ARENA_MAX: the binary links libc (cgo), every OS thread would reserve a 64 MiB malloc arena and
+	// 40 threads (blocking file I/O of the AOF) alone take 2.5 GiB of the address-space limit
+	extra := map[string]string{"VERIF_C13_CHILD": "1", "MALLOC_ARENA_MAX": "2"}
 	if statsPath != "" {
 		extra["VERIF_STATS"] = statsPath + ".child"
 	}
@@ -191,7 +238,7 @@ func w13Supervise(t *testing.T, test string) bool {
 			defer os.RemoveAll(d)
 		}
 	}
-	cmd := exec.Command(os.Args[0], w13ChildArgs(test)...)
+	cmd := exec.Command(os.Args[0], w13ChildArgs(test, skip)...)
 	cmd.Env = w13Env(extra)
 	tee := &w13Tee{w: os.Stdout}
 	cmd.Stdout, cmd.Stderr = tee, tee
@@ -203,13 +250,13 @@ func w13Supervise(t *testing.T, test string) bool {
 	inflight := filepath.Join(faildir, test+".inflight.json")
 	defer os.Remove(inflight)
 	if err == nil {
-		return true
+		return false, 0
 	}
 	if m := regexp.MustCompile(`VERIF-FAIL key=(\S+) ([^\n]*)`).FindAllStringSubmatch(out, -1); len(m) > 0 {
 		// an ordinary failure: the child has written <test>.case.json already
 		last := m[len(m)-1]
 		t.Fatalf("VERIF-FAIL key=%s %s", last[1], last[2])
-		return true
+		return false, 0
 	}
 	if strings.Contains(out, "panic: test timed out") {
 		fmt.Println("VERIF-INCONCLUSIVE C13 child timed out")
@@ -235,30 +282,45 @@ func w13Supervise(t *testing.T, test string) bool {
 	// the process died: a goroutine of the server panicked outside any connection handler (or hit a
 	// fatal error inside one)
 	key := w13BackgroundKey(stack)
-	var c w13Case
+	var fl w13InflightFile
 	b, rerr := os.ReadFile(inflight)
-	if rerr != nil || json.Unmarshal(b, &c) != nil {
+	if rerr != nil || json.Unmarshal(b, &fl) != nil || len(fl.Recent) == 0 {
 		vFail(t, test, key, nil, "server goroutine crashed the process (%s), the case in flight is unknown\n%s", head, w13Head(stack, 30))
-		return true
+		return false, 0
 	}
 	if w13KnownKeys().covers(key) {
 		// cannot continue behind it in this process model: report it as a known hit and stop
 		vstat(test).KnownHit(key)
 		fmt.Printf("VERIF-NOTE C13 known finding %s killed the child, the remaining budget of this shard is lost\n", key)
-		return true
+		return false, 0
 	}
-	rep, rkey, _ := w13ReplayIsolated(&c)
-	note := "the case in flight reproduces the crash in an isolated process"
-	if strings.Contains(stack, "server.(*Server).handle(") && !rep {
+	last := fl.Recent[len(fl.Recent)-1]
+	if strings.Contains(stack, "server.(*Server).handle(") {
 		// only the connection of the case in flight has a live handler goroutine
-		note = "the dying goroutine is the connection handler of the case in flight"
-	} else if !rep {
-		note = "the case in flight does NOT reproduce the crash in isolation (the crash may stem from background activity of an earlier case)"
-	} else if rkey != key {
-		note += " (as " + rkey + ")"
+		vFail(t, test, key, last, "a goroutine of the server crashed the process: %s; the dying goroutine is the connection handler of the case in flight\n%s", head, w13Head(stack, 30))
+		return false, 0
 	}
-	vFail(t, test, key, &c, "a goroutine of the server crashed the process: %s; %s\n%s", head, note, w13Head(stack, 30))
-	return true
+	// a goroutine the server started on its own (sweep, executor, AOF channel): it may act on what an
+	// earlier case left behind, so the last cases are tried one by one in isolated processes, newest first
+	for i := len(fl.Recent) - 1; i >= 0; i-- {
+		rep, rkey, _ := w13ReplayIsolatedLinger(fl.Recent[i], 3500)
+		if rep {
+			note := fmt.Sprintf("case %d before the end of the child reproduces the crash in an isolated process", len(fl.Recent)-1-i)
+			if rkey != key {
+				note += " (as " + rkey + ")"
+			}
+			vFail(t, test, key, fl.Recent[i], "a goroutine of the server crashed the process: %s; %s\n%s", head, note, w13Head(stack, 30))
+			return false, 0
+		}
+	}
+	*unattributed++
+	rep := map[string]interface{}{"test": test, "key": key, "message": head + "\n" + w13Head(stack, 60), "recent": fl.Recent}
+	if rb, merr := json.MarshalIndent(rep, "", " "); merr == nil {
+		_ = os.WriteFile(filepath.Join(faildir, fmt.Sprintf("%s.unattributed-%d.json", test, *unattributed)), rb, 0644)
+	}
+	fmt.Printf("VERIF-NOTE C13 unattributed death of a server goroutine (%s): %s; none of the last %d cases reproduces it in isolation\n%s\n", key, head, len(fl.Recent), w13Head(stack, 30))
+	vstat(test).Class("death of a server goroutine that no recent case reproduces (not judged)", 1)
+	return *unattributed < 3, fl.Started
 }
 
 var w13MallocRe = regexp.MustCompile(`runtime\.(?:mallocgc|makeslice|growslice)\((0x[0-9a-f]+)`)
@@ -286,8 +348,12 @@ func w13LimitAddressSpace(mb int) {
 	}
 	want := uint64(mb) << 20
 	if cur.Cur != ^uint64(0) && cur.Cur <= want {
+		debug.SetMemoryLimit(int64(cur.Cur) / 4)
 		return
 	}
+	// keep the garbage collector well below the limit: address space once reserved for the heap is never
+	// given back, and a long shard otherwise drifts to 5 GiB of reservations with 0.6 GiB of live data
+	debug.SetMemoryLimit(int64(want) / 4)
 	lim := syscall.Rlimit{Cur: want, Max: cur.Max}
 	if cur.Max != ^uint64(0) && cur.Max < want {
 		lim.Cur = cur.Max
@@ -312,6 +378,11 @@ type w13ChildResult struct {
 
 // w13ReplayIsolated executes one case in a child process and reports whether it violates the property.
 func w13ReplayIsolated(c *w13Case) (reproduced bool, key string, msg string) {
+	return w13ReplayIsolatedLinger(c, 0)
+}
+
+// w13ReplayIsolatedLinger: lingerMs > 0 keeps the child alive that long after the case (timers up to 3 s).
+func w13ReplayIsolatedLinger(c *w13Case, lingerMs int) (reproduced bool, key string, msg string) {
 	if os.Getenv("VERIF_C13_NOFORK") != "" {
 		info, fail := w13RunCase(c)
 		if info.Inconclusive != "" {
@@ -331,7 +402,11 @@ func w13ReplayIsolated(c *w13Case) (reproduced bool, key string, msg string) {
 	_, _ = f.Write(b)
 	_ = f.Close()
 	cmd := exec.Command(os.Args[0], "-test.run=^TestC13_ChildExec$", "-test.v", "-test.timeout=120s")
-	cmd.Env = w13Env(map[string]string{"VERIF_C13_CHILD": "1", "VERIF_C13_CASEFILE": f.Name(), "VERIF_STATS": "", "VERIF_KNOWN_KEYS": "", "VERIF_FAILDIR": ""})
+	env := map[string]string{"VERIF_C13_CHILD": "1", "MALLOC_ARENA_MAX": "2", "VERIF_C13_CASEFILE": f.Name(), "VERIF_STATS": "", "VERIF_KNOWN_KEYS": "", "VERIF_FAILDIR": ""}
+	if lingerMs > 0 {
+		env["VERIF_C13_CHILD_LINGER_MS"] = strconv.Itoa(lingerMs)
+	}
+	cmd.Env = w13Env(env)
 	var buf bytes.Buffer
 	cmd.Stdout, cmd.Stderr = &buf, &buf
 	rerr := cmd.Run()
